@@ -27,7 +27,12 @@ EvOfType(t) ==
               [] t \in {12, 13} -> 7
   IN Ev(st, IF t % 2 = 0 THEN "Start" ELSE "Done")
 
-BaseHandles == {[prof |-> p, id |-> 100, dirty |-> "clean"] : p \in {q \in Profiles : PFail(q) = 0}}
+\* handles the harness compiled beforehand (not traced): one per profile that compiles, with distinct ids
+RECURSIVE NumberHandles(_)
+NumberHandles(S) == IF S = {} THEN {}
+                    ELSE LET x == CHOOSE y \in S : TRUE
+                         IN {[prof |-> x, id |-> 100 + Cardinality(S), dirty |-> "clean"]} \cup NumberHandles(S \ {x})
+BaseHandles == NumberHandles({q \in Profiles : PFail(q) = 0})
 
 ResetState ==
   /\ pc' = [p \in Procs |-> "idle"]
